@@ -8,7 +8,7 @@ from harness.core import C, Nat, S, Some, Z
 TICK = 0.0625
 DEFAULT = "<default>"
 KEYS = ["a", "b", "c", "d", "e", "f", "g", "h", "i", "j"]
-VALUES = [1, 5, -3, "x", "hello", b"raw", b"a_b:c", None, 0]
+VALUES = [1, 5, -3, "x", "hello", b"raw", b"a_b:c", None, 0, [7, 8]]      # the list is mutable: the caller changes its own object after the write
 
 
 def val_to_coq(v):
@@ -17,6 +17,7 @@ def val_to_coq(v):
     if isinstance(v, int): return C("VInt", Z(v))
     if isinstance(v, str): return C("VStr", S(v))
     if isinstance(v, bytes): return C("VBytes", S(v.decode("latin1")))
+    if isinstance(v, list) and all(isinstance(x, int) and not isinstance(x, bool) for x in v): return C("VZs", [Z(x) for x in v])
     raise TypeError(v)
 
 
@@ -28,6 +29,7 @@ def enc(v):
 
 def dec(v):
     if isinstance(v, dict) and "b" in v: return v["b"].encode("latin1")
+    if isinstance(v, list): return list(v)      # a fresh object per use: the runner changes it after the write
     return v
 
 
@@ -83,9 +85,17 @@ async def apply(target, c):
             return enc(await target.get(c[1], default=DEFAULT))
         if op == "get_many": return [enc(x) for x in await target.get_many(*c[1], default=DEFAULT)]
         if op == "exists": return bool(await target.exists(c[1]))
-        if op == "set": return bool(await target.set(c[1], dec(c[2]), expire=secs(c[3]), exist=c[4]))
+        if op == "set":
+            v = dec(c[2])
+            r = bool(await target.set(c[1], v, expire=secs(c[3]), exist=c[4]))
+            if isinstance(v, list): v.append(99)      # the caller goes on using (and changing) its object: the store keeps what was written
+            return r
         if op == "set_many":
-            await target.set_many({k: dec(v) for k, v in c[1]}, expire=secs(c[2])); return None
+            pairs = {k: dec(v) for k, v in c[1]}
+            await target.set_many(pairs, expire=secs(c[2]))
+            for v in pairs.values():
+                if isinstance(v, list): v.append(99)
+            return None
         if op == "incr": return await target.incr(c[1], c[2], expire=secs(c[3]))
         if op == "delete": return bool(await target.delete(c[1]))
         if op == "delete_many":
